@@ -69,7 +69,8 @@ class CSSMediaRule(cssrule.CSSRuleRules):
         except BaseException:
             # raised from inside the parse (e.g. by the log in raising mode):
             # the new media and rules are only partly built
-            self._media, self._cssRules = oldMedia, oldCssRules
+            # (the setter makes the old rules name this rule again)
+            self._media, self.cssRules = oldMedia, oldCssRules
             raise
 
     def _parseCssText(self, cssText):  # noqa: C901
